@@ -136,3 +136,62 @@ func vC20NativeSlow(n int) {
 
 func vhC20_nativeslow_n2() { vC20NativeSlow(2) }
 func vhC20_nativeslow_n3() { vC20NativeSlow(3) }
+
+// C20 (native limiter, producer and clock in different threads): the source emits from its own
+// thread while a window boundary passes, so the per-key timer goroutine swaps windows while items
+// are in flight.  Whatever the interleaving: the output is a subsequence of the input (nothing
+// duplicated, order kept), no key exceeds quota x windows touched, and the completion arrives.
+func vC20NativeConc(n int) {
+	quota := int64(1 + vChoice("quota", 2))
+	window := int64(1000)
+	src := &vSource{}
+	obs := NewRateLimiter[int64](quota, time.Duration(window), func(int64) string { return "a" })(src.obs()) // one key: the schedules of one group
+	var got []int64
+	terminal := 0
+	vGo(func() {
+		obs.SubscribeWithContext(context.Background(), ro.NewObserver(
+			func(v int64) { got = append(got, v) },
+			func(err error) { terminal += 10 },
+			func() { terminal++ },
+		))
+	})
+	vQuiesce()
+	// a first item, alone: it creates its key's group, whose window timer starts now
+	sent := []int64{99}
+	src.emit(vStep{vkNext, 99})
+	vQuiesce()
+	for i := 0; i < n; i++ {
+		sent = append(sent, int64(100+i))
+	}
+	endInside := vChoice("endInside", 2) == 1 // the producer also completes while the boundary passes
+	vGo(func() {
+		for _, v := range sent[1:] {
+			vYield() // the producer pauses between items: the timer goroutine may run in between
+			src.emit(vStep{vkNext, v})
+		}
+		if endInside {
+			vYield()
+			src.emit(vStep{kind: vkComplete})
+		}
+	})
+	vAdvance(window + 1) // a window boundary passes while the producer is at work
+	vQuiesce()
+	if !endInside {
+		src.emit(vStep{kind: vkComplete})
+		vQuiesce()
+	}
+	k := 0
+	for _, v := range got {
+		for k < len(sent) && sent[k] != v {
+			k++
+		}
+		vAssert(k < len(sent), "native limiter: an item was duplicated or delivered out of order while a window boundary passed during production")
+		k++
+	}
+	vAssert(int64(len(got)) <= 2*quota, "native limiter: more items of one key passed than the quota allows for the windows touched")
+	vAssert(terminal == 1, "native limiter: the completion of the source was not propagated")
+	vReach("end")
+}
+
+func vhC20_nativeconc_n2() { vC20NativeConc(2) }
+func vhC20_nativeconc_n3() { vC20NativeConc(3) }
